@@ -1,6 +1,8 @@
 package kafka
 
 import (
+	"bufio"
+	"bytes"
 	"context"
 	"errors"
 	"net"
@@ -567,4 +569,127 @@ func VH_C19_ReadPartitionsRequest(version, variant int) {
 		vhAssert(n == -1, "all-topics-are-asked-for-with-a-null-array")
 	}
 	vhReach("c19-read-partitions-request")
+}
+
+// C19 wire level: an OffsetFetch response hand-encoded from the protocol guide (versions 0-5: the group-level
+// error_code exists from v2, throttle_time_ms from v3, committed_leader_epoch in v5) is decoded by
+// protocol.ReadResponse into exactly the broker's values - in particular a group-level error that comes with no
+// topics, as brokers send it, is not lost at any version that carries it.
+func VH_C19_OffsetFetchWire(version int) {
+	groupErr := vhInt16("group_error")
+	committed := vhInt64("committed_offset")
+	partErr := vhInt16("partition_error")
+	epoch := vhInt32("leader_epoch")
+	withTopic := vhBool("response_lists_a_topic")
+	w := &vhW{}
+	if version >= 3 {
+		w.i32(0)
+	}
+	if withTopic {
+		w.i32(1)
+		w.str("t")
+		w.i32(1)
+		w.i32(0)
+		w.i64(committed)
+		if version >= 5 {
+			w.i32(epoch)
+		}
+		w.str("m")
+		w.i16(partErr)
+	} else {
+		w.i32(0)
+	}
+	if version >= 2 {
+		w.i16(groupErr)
+	}
+	frame := vhFrameOf(9, w.b)
+	rd := bufio.NewReader(bytes.NewReader(append(append([]byte{}, frame...), 0xAA)))
+	id, msg, err := protocol.ReadResponse(rd, protocol.OffsetFetch, int16(version))
+	vhAssert(err == nil && id == 9, "offsetfetch-wire-read-ok")
+	vhAssert(rd.Buffered() == 1, "offsetfetch-wire-consumes-exactly-one-frame")
+	res, ok := msg.(*poffsetfetch.Response)
+	vhAssert(ok, "offsetfetch-wire-type")
+	if !ok {
+		return
+	}
+	if version >= 2 {
+		vhAssert(res.ErrorCode == groupErr, "offsetfetch-wire-group-error-is-the-brokers")
+	}
+	if withTopic {
+		vhAssert(len(res.Topics) == 1 && len(res.Topics[0].Partitions) == 1, "offsetfetch-wire-one-partition")
+		if len(res.Topics) == 1 && len(res.Topics[0].Partitions) == 1 {
+			p := res.Topics[0].Partitions[0]
+			vhAssert(vhAll(res.Topics[0].Name == "t", p.PartitionIndex == 0, p.CommittedOffset == committed, p.Metadata == "m", p.ErrorCode == partErr), "offsetfetch-wire-partition-is-the-brokers")
+			if version >= 5 {
+				vhAssert(p.ComittedLeaderEpoch == epoch, "offsetfetch-wire-leader-epoch")
+			}
+		}
+	} else {
+		vhAssert(len(res.Topics) == 0, "offsetfetch-wire-no-topics")
+	}
+	vhReach("c19-offsetfetch-wire")
+}
+
+// C19: a ListOffsets query over partitions led by two brokers of which one never answers before the caller's
+// deadline: the answer received from the other leader is reported (its offset exactly), the silent leader's partition
+// gets an error of its own - the whole query is not turned into a failure and no offset is invented.
+func VH_C19_JoinedAwait(order int) {
+	vhConcreteClock(true)
+	cluster := protocol.Cluster{Brokers: map[int32]protocol.Broker{}, Topics: map[string]protocol.Topic{}}
+	for id := int32(1); id <= 2; id++ {
+		cluster.Brokers[id] = protocol.Broker{ID: id, Host: "h", Port: 9092 + id}
+	}
+	cluster.Topics["t"] = protocol.Topic{Name: "t", Partitions: map[int32]protocol.Partition{0: {ID: 0, Leader: 1}, 1: {ID: 1, Leader: 2}}}
+	req := &plistoffsets.Request{ReplicaID: -1, Topics: []plistoffsets.RequestTopic{{Topic: "t", Partitions: []plistoffsets.RequestPartition{{Partition: 0, Timestamp: -1}, {Partition: 1, Timestamp: -1}}}}}
+	msgs, merger, err := req.Split(cluster)
+	vhAssert(err == nil && len(msgs) == 2, "split-in-two")
+	if err != nil || len(msgs) != 2 {
+		return
+	}
+	offset := vhInt64("offset_reported_by_the_answering_leader")
+	promises := make([]promise, 2)
+	requests := make([]Request, 2)
+	answered := int32(order) // the partition whose leader answers
+	answeredFirst := false
+	for i, m := range msgs {
+		sub := m.(*plistoffsets.Request)
+		requests[i] = sub
+		a := make(async, 1)
+		promises[i] = a
+		if sub.Topics[0].Partitions[0].Partition == answered {
+			a.resolve(&plistoffsets.Response{Topics: []plistoffsets.ResponseTopic{{Topic: "t", Partitions: []plistoffsets.ResponsePartition{{Partition: answered, Timestamp: -1, Offset: offset}}}}})
+			answeredFirst = i == 0
+		}
+	}
+	ctx, cancel := context.WithTimeout(context.Background(), time.Second)
+	defer cancel()
+	res, aerr := join(promises, requests, merger).await(ctx)
+	// The answer that is collected while the caller's context is still alive (the sub-request awaited first) must be
+	// reported. Once the context has ended, an answer that is ready competes with the context in a select: both
+	// outcomes are legitimate there, and so is failing the whole query when nothing was collected - but an offset
+	// that is reported without an error is always the leader's.
+	if answeredFirst {
+		vhAssert(aerr == nil && res != nil, "an-answer-collected-before-the-deadline-is-reported")
+	}
+	if aerr != nil || res == nil {
+		vhReach("c19-joined-await")
+		return
+	}
+	out := res.(*plistoffsets.Response)
+	seen := 0
+	for _, t := range out.Topics {
+		for _, p := range t.Partitions {
+			seen++
+			if p.Partition == answered {
+				vhAssert(p.ErrorCode != 0 || p.Offset == offset, "answered-partition-reports-the-leaders-offset-or-an-error")
+				if answeredFirst {
+					vhAssert(p.ErrorCode == 0 && p.Offset == offset, "answered-partition-reports-the-leaders-offset")
+				}
+			} else {
+				vhAssert(p.ErrorCode != 0, "silent-leaders-partition-reports-an-error")
+			}
+		}
+	}
+	vhAssert(seen == 2, "every-requested-partition-is-reported")
+	vhReach("c19-joined-await")
 }
